@@ -4,7 +4,7 @@ import run_cluster as K
 
 PROP = "C11"
 CONE = K.MODEL_FILES + ["Gen/Generated.v", "Proofs/SkelPinChecker.v", "Proofs/SkelPinInv.v", "Proofs/RunProofs.v",
-                        "Proofs/RunRefine.v", "Props/C11.v"]
+                        "Proofs/RunRefine.v", "Proofs/CheckerSurface.v", "Props/C11.v"]
 RULE = ("as C10, with faults: every script raises with probability 0.12 an exception of one of five classes "
         "(Exception, BaseException-only, KeyboardInterrupt, GeneratorExit, CancelledError); async programs have "
         "suspension points in conditions, captures and bodies and half of their operations get an exception "
